@@ -1078,3 +1078,187 @@ def iterator_loops(fa, over_substr):
         if over_substr in term_str(fa.arg_origin(s, 0)):
             out.append(s)
     return out
+
+
+# ---------------------------------------------------------------------------------------------
+# path-sensitive evaluation of a flag word over boolean parameters
+def flag_paths(fa, params, max_paths=512):
+    """Enumerates the acyclic paths of fa from the entry to a return and evaluates the returned
+    integer on each as  const | bit contributions of the boolean parameters | opaque parts.
+    Yields (cond, const, bits, opaque): cond = {param: truth} fixed by the branches taken,
+    bits = {(param, k)}: `param` (as 0/1) shifted left by k is or-ed in, opaque = set of strings.
+    None if the function does not have this shape (a loop, too many paths)."""
+    body = fa.body
+    pidx = {}
+    for i in range(1, body.arg_count + 1):
+        nm = body.local_name(i)
+        if nm in params:
+            pidx[i] = nm
+
+    def val_const(v):
+        return (int(v), frozenset(), frozenset())
+
+    def opaque(s):
+        return (0, frozenset(), frozenset([s]))
+
+    def read_place(env, pl, where):
+        l, proj = pl["l"], pl["p"]
+        v = env.get(l)
+        if v is None:
+            if l in pidx and not proj:
+                return ("bool", pidx[l], True)
+            return opaque("_%d%s@%s" % (l, "".join(str(x) for x in proj), where)) if proj else opaque("_%d" % l)
+        for e in proj:
+            if isinstance(e, dict) and "f" in e and isinstance(v, tuple) and v and v[0] == "tup" and e["f"] < len(v[1]):
+                v = v[1][e["f"]]
+            else:
+                return opaque("_%d.." % l)
+        return v
+
+    def read_op(env, o, where):
+        if "k" in o:
+            k = o["k"]
+            if "v" in k and isinstance(k["v"], (int, bool)):
+                return val_const(k["v"])
+            return opaque(str(k.get("repr") or k.get("fn") or "const"))
+        pl = o.get("c") or o.get("m")
+        return read_place(env, pl, where)
+
+    def as_int(v):
+        if isinstance(v, tuple) and v and v[0] == "bool":
+            if v[2]:
+                return (0, frozenset([(v[1], 0)]), frozenset())
+            return opaque("!%s" % v[1])
+        if isinstance(v, tuple) and v and v[0] == "tup":
+            return opaque("tuple")
+        return v
+
+    def ev_rv(env, rv, where):
+        k = rv["k"]
+        if k == "use":
+            return read_op(env, rv["op"], where)
+        if k == "cast":
+            return as_int(read_op(env, rv["op"], where)) if not rv.get("ty", "").startswith("bool") else read_op(env, rv["op"], where)
+        if k == "agg" and rv.get("kind") == "tuple":
+            return ("tup", [read_op(env, o, where) for o in rv["ops"]])
+        if k == "un" and rv.get("op") == "Not":
+            v = read_op(env, rv["operand"] if "operand" in rv else rv.get("o", {}), where) if ("operand" in rv or "o" in rv) else None
+            if isinstance(v, tuple) and v and v[0] == "bool":
+                return ("bool", v[1], not v[2])
+            return opaque("not@%s" % where)
+        if k == "bin":
+            a, b = as_int(read_op(env, rv["l"], where)), as_int(read_op(env, rv["r"], where))
+            op = rv["op"]
+            if op == "BitOr" and len(a) == 3 and len(b) == 3:
+                return (a[0] | b[0], a[1] | b[1], a[2] | b[2])
+            if op in ("Shl", "ShlUnchecked") and len(a) == 3 and len(b) == 3 and not b[1] and not b[2]:
+                s = b[0]
+                return (a[0] << s, frozenset((p, j + s) for p, j in a[1]), frozenset("(%s)<<%d" % (x, s) for x in a[2]))
+            if len(a) == 3 and len(b) == 3 and not (a[1] or a[2] or b[1] or b[2]):
+                x, y = a[0], b[0]
+                try:
+                    r = {"Add": x + y, "Sub": x - y, "Mul": x * y, "BitAnd": x & y, "BitXor": x ^ y, "Eq": int(x == y), "Ne": int(x != y), "Lt": int(x < y), "Le": int(x <= y), "Gt": int(x > y), "Ge": int(x >= y)}.get(op)
+                except Exception:
+                    r = None
+                if r is not None:
+                    return val_const(r)
+            return opaque("%s@%s" % (op, where))
+        return opaque("%s@%s" % (k, where))
+
+    out = []
+    count = [0]
+
+    def walk(bi, env, cond, seen):
+        if count[0] > max_paths:
+            return False
+        if bi in seen:
+            return False       # a loop: not the shape this evaluator is for
+        seen = seen | {bi}
+        b = fa.blocks[bi]
+        env = dict(env)
+        for si, st in enumerate(b.stmts):
+            if st["k"] != "assign":
+                continue
+            pl = st["place"]
+            if pl["p"]:
+                env[pl["l"]] = opaque("_%d partial" % pl["l"])
+                continue
+            env[pl["l"]] = ev_rv(env, st["rv"], "bb%d" % bi)
+        t = b.term
+        k = t["k"]
+        if k == "return":
+            count[0] += 1
+            v = as_int(env.get(0, opaque("ret")))
+            out.append((dict(cond), v[0], set(v[1]), set(v[2])))
+            return True
+        if k in ("goto", "false_edge", "drop", "assert", "false_unwind"):
+            tg = t.get("target")
+            return walk(tg, env, cond, seen) if tg is not None else True
+        if k == "call":
+            tg = t.get("target")
+            if tg is None:
+                return True      # diverges
+            d = t["dest"]
+            if "From<bool>" in (t.get("callee_full") or "") and (t.get("callee") or "").endswith("::from") and len(t["args"]) == 1 and not d["p"]:
+                env[d["l"]] = as_int(read_op(env, t["args"][0], "bb%d" % bi))     # uN::from(flag) is flag as uN
+            else:
+                env[d["l"]] = opaque("%s@bb%d" % ((t.get("callee") or "call").split("::")[-1], bi))
+            return walk(tg, env, cond, seen)
+        if k == "switch":
+            dv = read_op(env, t["discr"], "bb%d" % bi)
+            edges = [(v, x) for v, x in t["targets"]] + [(None, t["otherwise"])]
+            if isinstance(dv, tuple) and dv and dv[0] == "bool" and t.get("discr_ty") == "bool":
+                p, pol = dv[1], dv[2]
+                m = {v: x for v, x in t["targets"]}
+                f = m.get(0, t["otherwise"])
+                tr = t["otherwise"] if 0 in m else m.get(1)
+                if not pol:
+                    tr, f = f, tr
+                ok = True
+                for truth, tg in ((True, tr), (False, f)):
+                    if tg is None or (p in cond and cond[p] != truth):
+                        continue
+                    c2 = dict(cond)
+                    c2[p] = truth
+                    ok = walk(tg, env, c2, seen) and ok
+                return ok
+            if isinstance(dv, tuple) and len(dv) == 3 and not dv[1] and not dv[2]:
+                m = {v: x for v, x in t["targets"]}
+                return walk(m.get(dv[0], t["otherwise"]), env, cond, seen)
+            ok = True
+            for _, tg in edges:
+                if tg is not None and tg in fa.succ:
+                    ok = walk(tg, env, cond, seen) and ok
+            return ok
+        if k in ("unreachable", "resume", "abort", "unwind_terminate"):
+            return True
+        return False
+
+    if not walk(0, {}, {}, frozenset()):
+        return None
+    return out
+
+
+def flag_table(fa, params):
+    """{(truth of params[0], truth of params[1], ..): (flag value, frozenset(opaque parts))} if every
+    combination of the boolean parameters yields one value on every path, else None"""
+    import itertools
+    paths = flag_paths(fa, params)
+    if not paths:
+        return None
+    table = {}
+    for combo in itertools.product((False, True), repeat=len(params)):
+        asg = dict(zip(params, combo))
+        vals = set()
+        for cond, c, bits, opq in paths:
+            if any(asg[p] != v for p, v in cond.items()):
+                continue
+            x = c
+            for p, k_ in bits:
+                if asg[p]:
+                    x |= 1 << k_
+            vals.add((x, frozenset(opq)))
+        if len(vals) != 1:
+            return None
+        table[combo] = next(iter(vals))
+    return table
